@@ -60,6 +60,7 @@ type Sched struct {
 	D        int      `json:"d,omitempty"`
 	EstSteps uint64   `json:"est,omitempty"`
 	Affine   bool     `json:"affine,omitempty"`
+	Hot      bool     `json:"hot,omitempty"` // nap policy: stall preferentially right before atomic / sync operations
 	Explicit []Switch `json:"explicit,omitempty"`
 }
 
@@ -121,6 +122,7 @@ type Stats struct {
 	Selects         uint64
 	TimersFired     uint64
 	ForcedGCs       uint64
+	HotNaps         uint64
 	Fingerprint     uint64
 	PairFP          []uint64 // hashes of (preempted site, resumed site)
 	Truncated       bool
@@ -172,10 +174,21 @@ type abortSentinel struct{}
 // sentinel (deadlock / budget), as opposed to a panic of the code under test.
 func IsAbort(v any) bool { _, ok := v.(abortSentinel); return ok }
 
+var (
+	hotList []uint32 // filled by the generated hot_gen.go
+	hotSite []bool
+)
+
 //go:norace
 func SetSites(n int) {
 	SiteHits = make([]uint32, n+1)
 	SitePreempt = make([]uint32, n+1)
+	hotSite = make([]bool, n+1)
+	for _, id := range hotList {
+		if int(id) < len(hotSite) {
+			hotSite[id] = true
+		}
+	}
 }
 
 //go:norace
@@ -446,7 +459,14 @@ func decide(t *task, site uint32, boundary bool) int32 {
 	case PolRTC:
 		return -1
 	case PolNap:
-		if sched.Den == 0 || uint32(rng.next()%uint64(sched.Den)) >= sched.Num {
+		if sched.Hot && int(site) < len(hotSite) && hotSite[site] {
+			// right before an atomic / sync operation: windows in lock-free and
+			// lock-based code open and close here, so stall here often
+			if rng.next()%3 != 0 {
+				return -1
+			}
+			stats.HotNaps++
+		} else if sched.Den == 0 || uint32(rng.next()%uint64(sched.Den)) >= sched.Num {
 			return -1
 		}
 		to := pick(cur)
